@@ -386,6 +386,8 @@ bool Xml::Private::parseElement(Element& element)
     if(string.isEmpty())
     { // the text starts right behind a comment: step over it instead of rewinding in front of it again
       skipSpace();
+      if(this->pos.pos == pos.pos)
+        return syntaxError(this->pos, "Unexpected character"), false; // never start over without having consumed input
       continue;
     }
     element.content.append(string);
